@@ -885,3 +885,151 @@ func TestVerifC09Flood(t *testing.T) {
 		w.Flush()
 	}
 }
+
+// ------------------------------------------------------------------ sends after close, many times, every API (TestVerifC09LateSend)
+//
+// "later sends fail immediately": on a client that WAS connected (so its ready gate is open) and is closed now, every exported
+// send — SendMessage, SendFor, SendNoWait — must return an error of the ErrClientClosed class at once. A select between two
+// ready channels picks at random, so one try proves little: `tries` calls per API, each in its own goroutine with a background
+// context; a call that has not returned within per_call_ms is reported (and the API is abandoned, so goroutines do not pile up).
+
+type c09LateReq struct {
+	ID        string `json:"id"`
+	Tries     int    `json:"tries"`
+	PerCallMs int    `json:"per_call_ms"`
+	How       string `json:"how"` // close | shutdown | eof : how the client got closed
+}
+
+type c09Out struct {
+	typ  MessageType
+	data []byte
+}
+
+func (o c09Out) MarshalBinary() ([]byte, error) { return o.data, nil }
+func (o c09Out) Type() MessageType              { return o.typ }
+
+type c09In struct{ typ MessageType }
+
+func (i *c09In) UnmarshalBinary([]byte) error { return nil }
+func (i *c09In) Type() MessageType            { return i.typ }
+
+func c09LateRun(rq c09LateReq) vsObs {
+	out := vsObs{"id": rq.ID, "how": rq.How}
+	var pmu sync.Mutex
+	var panics []string
+	guard := func(what string) {
+		if r := recover(); r != nil {
+			pmu.Lock()
+			panics = append(panics, fmt.Sprint(what, ": ", r))
+			pmu.Unlock()
+		}
+	}
+	c := NewClient(WithLogger(nil), WithVersion(Version1_0_1))
+	cli, peer := net.Pipe()
+	connRes := make(chan string, 1)
+	go func() { defer guard("Connect"); connRes <- vsClassify(c.Connect(cli)) }()
+	b := (&vsPl{K: "conn"}).bytes()
+	_ = peer.SetDeadline(time.Now().Add(2 * time.Second))
+	if _, err := peer.Write(vsBuildFrame(1, int(MsgReaderEventNotification), 0, uint32(10+len(b)), b)); err != nil {
+		out["error"] = "first frame: " + err.Error()
+		return out
+	}
+	select {
+	case <-c.ready:
+	case <-time.After(2 * time.Second):
+		out["error"] = "client never became ready"
+		return out
+	}
+	switch rq.How {
+	case "close":
+		_ = c.Close()
+		_ = peer.Close()
+	case "eof":
+		_ = peer.Close()
+	case "shutdown":
+		go func() { // the reader accepts CloseConnection and hangs up
+			hb := make([]byte, 10)
+			if _, err := io.ReadFull(peer, hb); err == nil {
+				h := vsParseHeader(hb)
+				_, _ = peer.Write(vsBuildFrame(1, int(MsgCloseConnectionResponse), h.ID, 18, vsStatusTLV(0)))
+			}
+			_ = peer.Close()
+		}()
+		ctx, cancel := context.WithTimeout(context.Background(), 2*time.Second)
+		out["shutdown"] = vsClassify(c.Shutdown(ctx))
+		cancel()
+	}
+	select {
+	case r := <-connRes:
+		out["connect"] = r
+	case <-time.After(2 * time.Second):
+		out["connect"] = "stuck"
+	}
+	per := time.Duration(rq.PerCallMs) * time.Millisecond
+	apis := []string{"SendMessage", "SendFor", "SendNoWait"}
+	res := vsObs{}
+	for _, api := range apis {
+		counts := map[string]int{}
+		for i := 0; i < rq.Tries; i++ {
+			ch := make(chan string, 1)
+			go func(i int) {
+				defer guard(api)
+				var err error
+				bg := context.Background()
+				switch api {
+				case "SendMessage":
+					_, _, err = c.SendMessage(bg, MessageType(20), vsPayload(uint64(i%3), 7))
+				case "SendFor":
+					err = c.SendFor(bg, c09Out{MessageType(21), vsPayload(uint64(i%3), 8)}, &c09In{MessageType(21)})
+				case "SendNoWait":
+					var m Message
+					if i%3 == 0 {
+						m = NewHdrOnlyMsg(MessageType(22))
+					} else {
+						m, _ = NewByteMessage(MessageType(22), vsPayload(uint64(i%3), 9))
+					}
+					err = c.SendNoWait(bg, m)
+				}
+				if err == nil {
+					ch <- "nil"
+				} else {
+					ch <- vsClassify(err)
+				}
+			}(i)
+			select {
+			case r := <-ch:
+				counts[r]++
+			case <-time.After(per):
+				counts["stuck"]++
+			}
+			if counts["stuck"] > 0 {
+				break
+			}
+		}
+		res[api] = counts
+	}
+	out["results"] = res
+	_ = cli.Close()
+	_ = peer.Close()
+	pmu.Lock()
+	if len(panics) > 0 {
+		out["panics"] = panics
+	}
+	pmu.Unlock()
+	return out
+}
+
+func TestVerifC09LateSend(t *testing.T) {
+	lines, w, done := verifIO(t)
+	defer done()
+	enc := json.NewEncoder(w)
+	for _, line := range lines {
+		var rq c09LateReq
+		if err := json.Unmarshal([]byte(line), &rq); err != nil {
+			_ = enc.Encode(vsObs{"error": "bad request: " + err.Error()})
+			continue
+		}
+		_ = enc.Encode(c09LateRun(rq))
+		w.Flush()
+	}
+}
